@@ -329,6 +329,13 @@ class P(Prop):
     @staticmethod
     def pred_known_rows(case, obs, params):
         import re
+        if isinstance(case, dict) and case.get("stream") == "mix" and case.get("spec") == "FUEL_EU_MARITIME":
+            # a mix containing one of the known pathways without factors: every figure is NaN
+            from feems.fuel import (_FUEL_CLASS_FUEL_EU_MARITIME_MAPPING as OM, _FUEL_TYPE_FUEL_EU_MARITIME_MAPPING as TM, FuelOrigin, TypeFuel)
+            hit = any("type" in f and FuelOrigin(f["origin"]) in OM and [TM[TypeFuel(f["type"])], OM[FuelOrigin(f["origin"])]] in params["rows"]
+                      for f in case["fuels"])
+            nan = isinstance(obs.get("total"), list) and any(x != x for row in obs["total"] for x in row if isinstance(x, float))
+            return hit and nan
         if not (isinstance(case, dict) and case.get("regen") == "incomplete_rows"):
             return False
         rows = [list(x) for x in re.findall(r'\("([^"]+)", "([^"]+)"\)', case["rows"])]
